@@ -8,7 +8,7 @@ doc = json.load(open(P))
 if sys.argv[1] == "add":
     r = json.load(open(sys.argv[2]))
     e = {"property": r["property"], "rule": r["rule"], "key": r["key"], "status": "known", "what": sys.argv[3], "where_when_listed": r.get("where", "")}
-    doc["findings"] = [f for f in doc["findings"] if not (f["property"] == e["property"] and f["rule"] == e["rule"] and f["key"] == e["key"])]
+    doc["findings"] = [f for f in doc["findings"] if not (f["property"] == e["property"] and f.get("rule") == e["rule"] and f.get("key") == e["key"])]
     doc["findings"].append(e)
 elif sys.argv[1] == "fixed":
     doc["findings"].append({"property": sys.argv[2], "status": "fixed", "commit": sys.argv[3], "what": sys.argv[4],
